@@ -4,6 +4,7 @@ import (
 	"fmt"
 	"go/types"
 	"strings"
+	"sync"
 
 	"flytsa/internal/eng"
 
@@ -20,6 +21,7 @@ type LifeMon struct {
 	// parameters of the root (Run): ctx, node, shared
 	Ctx, Node, Shared *eng.Term
 	execLoops         map[*ssa.BasicBlock]bool
+	mu                sync.Mutex
 }
 
 type loopRec struct {
@@ -152,7 +154,14 @@ func (m *LifeMon) variant(c *eng.Ctx) string {
 }
 
 func (m *LifeMon) construct(c *eng.Ctx, ev *eng.Event) string {
-	return m.variant(c) + "|" + funcLabel(ev.Fn) + ":" + ev.Class
+	role := ev.Class
+	switch {
+	case ev.Kind == "select":
+		role = "wait-select"
+	case role == "":
+		role = ev.Kind
+	}
+	return m.variant(c) + "|" + funcLabel(ev.Fn) + ":" + role
 }
 
 func knownNil(c *eng.Ctx, t *eng.Term) bool {
@@ -221,6 +230,9 @@ func (m *LifeMon) OnEvent(c *eng.Ctx, ms eng.MState, ev *eng.Event) eng.MState {
 				} else {
 					r.exited = 1
 				}
+				if m.isExecLoopHeader(c, ev.Fn, l.Header) {
+					m.checkBudgetTest(c, s, ev, batch, r.chainExecs > 0 && l.Blocks[ev.Succ])
+				}
 			}
 		}
 	case "select":
@@ -287,7 +299,10 @@ func (m *LifeMon) OnEvent(c *eng.Ctx, ms eng.MState, ev *eng.Event) eng.MState {
 		case "cb:GetWait":
 			if len(ev.Results) > 0 {
 				s.waitTerm = ev.Results[0]
+				chk("C20.R1", ev.Recv != nil && ev.Recv.Contains(m.Node), "the retry wait is read from "+ev.Recv.Pretty()+", not from the node being run")
 			}
+		case "cb:GetMaxRetries":
+			chk("C02.R1", ev.Recv != nil && ev.Recv.Contains(m.Node), "the retry budget is read from "+ev.Recv.Pretty()+", not from the node being run")
 		case "cb:Prep":
 			s = m.onPrep(c, s, ev, batch, chk)
 		case "cb:Exec":
@@ -342,6 +357,51 @@ func retag(rule string, batch bool) string {
 	return out
 }
 
+// checkBudgetTest: the value the attempt counter is tested against is the
+// node's GetMaxRetries() result, or the constant 1 when the node is known not
+// to expose retry settings (C02.R1, dynamic half; the arithmetic of the loop
+// is decided statically by AnalyzeRetryLoops).
+func (m *LifeMon) checkBudgetTest(c *eng.Ctx, s lifeState, ev *eng.Event, batch bool, continuesAfterAttempt bool) {
+	var evs, others []*eng.Term
+	consts := map[int64]bool{}
+	ev.Cond.Walk(func(n *eng.Term) {
+		switch n.K {
+		case eng.KEv:
+			evs = append(evs, n)
+		case eng.KConst:
+			if n.IsInt {
+				consts[n.I] = true
+			}
+		case eng.KSym, eng.KBin, eng.KAff, eng.KNot:
+		default:
+			others = append(others, n)
+		}
+	})
+	con := m.variant(c) + "|" + funcLabel(ev.Fn) + ":budget-test"
+	ok, msg := true, ""
+	for _, t := range evs {
+		if !(t.I == 0 && c.E.SiteClass[t.S] == "cb:GetMaxRetries") {
+			ok, msg = false, "the attempt counter is tested against "+t.Pretty()+", which is not the node's GetMaxRetries() value"
+		}
+	}
+	if len(others) > 0 {
+		ok, msg = false, "the budget test involves "+others[0].Pretty()+", whose relation to the node's budget is not established"
+	}
+	if ok && len(evs) == 0 {
+		// constant budget: only for nodes without retry settings, and it must be 1
+		retryable := c.Eval(eng.TAOk(m.Node, m.R.Retryable))
+		if s.nodeTerm != nil {
+			retryable = c.Eval(eng.TAOk(s.nodeTerm, m.R.Retryable))
+		}
+		if retryable != eng.TriFalse {
+			ok, msg = false, "a node that exposes retry settings is given a constant budget"
+		} else if continuesAfterAttempt {
+			ok, msg = false, "a node without retry settings is given more than one attempt (default budget is not 1)"
+		}
+	}
+	m.Col.Check(retag("C02.R1", batch), con, ok, ev.Pos, msg, pathIf(!ok, c))
+}
+
 func pathIf(cond bool, c *eng.Ctx) []string {
 	if cond {
 		return c.St.Path()
@@ -376,12 +436,17 @@ func appendTimer(xs []timerRec, x timerRec) []timerRec {
 }
 
 func (m *LifeMon) isExecLoop(c *eng.Ctx, ev *eng.Event) bool {
-	// the loop (header = ev.Succ) directly contains an invoke of the Exec callback
-	h := ev.Succ
+	return m.isExecLoopHeader(c, ev.Fn, ev.Succ)
+}
+
+// isExecLoopHeader: the loop with this header directly contains an invoke of the Exec callback.
+func (m *LifeMon) isExecLoopHeader(c *eng.Ctx, fn *ssa.Function, h *ssa.BasicBlock) bool {
+	m.mu.Lock()
+	defer m.mu.Unlock()
 	if v, ok := m.execLoops[h]; ok {
 		return v
 	}
-	fi := c.E.InfoOf(ev.Fn)
+	fi := c.E.InfoOf(fn)
 	res := false
 	for _, l := range fi.Loops {
 		if l.Header != h {
